@@ -633,12 +633,17 @@ class eval_abs(object):
                         out.append((ee, off_base, off_base+ee.get_size()))
                         off_base += ee.get_size()
                     else:
+                        # the cell starts before the requested address:
+                        # its bytes from -off on are the low bytes of the result
+                        off_base = 0
                         m = min(a.get_size()-off*8, x.get_size())
                         ee = ExprSlice(self.pool[x], -off*8, m)
                         ee = expr_simp(ee)
                         out.append((ee, off_base, off_base+ee.get_size()))
                         off_base += ee.get_size()
                 if out:
+                    # rest_slice() walks the pieces by increasing offset
+                    out.sort(key=lambda x:x[1])
                     missing_slice = self.rest_slice(out, 0, a.get_size())
                     for sa, sb in missing_slice:
                         ptr = expr_simp(a_val + ExprInt32(sa/8))
